@@ -186,6 +186,9 @@ func readAll(rd *enum.FragReader, c *readCase) (clause string, detail string) {
 	rd.Reset(c.stream, c.cuts, c.mode, c.chunk)
 	consumed := 0
 	var shared net.Message
+	// every message read so far, as the caller holds it (the struct value
+	// with its payload slice): a later Read must not change an earlier one
+	kept := make([]net.Message, 0, len(c.msgs))
 	for i, enc := range c.msgs {
 		var fresh net.Message
 		mp := &fresh
@@ -221,6 +224,12 @@ func readAll(rd *enum.FragReader, c *readCase) (clause string, detail string) {
 				k = "under"
 			}
 			return "consumed-" + k, fmt.Sprintf("message %d: reader position %d after the message, expected exactly %d", i, rd.Pos(), consumed)
+		}
+		kept = append(kept, m)
+		for j, old := range kept[:i] {
+			if !bytes.Equal(old.Payload, c.msgs[j][28:]) {
+				return "earlier-message-overwritten", fmt.Sprintf("reading message %d changed the payload of message %d read before (now %s, was %s)", i, j, hexHead(old.Payload), hexHead(c.msgs[j][28:]))
+			}
 		}
 	}
 	return "", ""
